@@ -164,6 +164,22 @@ def step (st : St) (j : Json) : Except String (St × Json × List Fired) := do
   -- reaches it — it does not stay open for complaints about round data the same walk has just deleted
   if op == "endBlock" && st'.g.status == .expired && (istatus == 1 || istatus == 2 || istatus == 3) then
     fired := fired ++ [{ name := "overdue_group_left_in_its_round", detail := mkObj [("status", jn istatus)] }]
+  -- the PendingGroups query (a member's daemon asks it at start-up and redoes the round for every group listed) names this
+  -- group for exactly the members whose message of the CURRENT round has not been accepted yet
+  match (j.getObjVal? "obs").toOption.bind (fun o => (o.getObjVal? "pending").toOption) with
+  | some (.arr a) =>
+    let got := a.toList.filterMap fun x => (asNat x).toOption
+    let g2 := st'.g
+    let want := ((List.range g2.n).map (· + 1)).filter fun i =>
+      let mb := g2.members i
+      match g2.status with
+      | .round1 => !mb.r1
+      | .round2 => !mb.r2
+      | .round3 => !mb.confirmed && !mb.complained
+      | _ => false
+    if e == .ok && ierr == "" && got != want then
+      fired := fired ++ [{ name := "pending_groups_query_disagrees_with_the_round_state", detail := mkObj [("got", jl (got.map jn)), ("want", jl (want.map jn))] }]
+  | _ => pure ()
   -- a member that follows the protocol is never marked malicious
   for i in List.range g.n do
     if st.honest.getD i false && imal (i + 1) then
